@@ -812,3 +812,6 @@ def run(ctx):
     check_setup(ctx, P, MV)
     check_table_size(ctx, P, MV)
     check_event_batch(ctx, P)
+    from props import deps
+    deps.depend(ctx, P, "C09", "poll.dep", "the idle loop's polling of the event engine", "a fiber blocked on a descriptor is resumed only by a poller",
+                lambda x: x.rule.startswith("poll."))
